@@ -25,7 +25,7 @@ Definition cfg_repo_eps (d e : Z) : config :=
          (lock_empty_mtime_guard && (lock_empty_mtime_factor =? lock_stale_factor)) lock_undecodable_as_empty d e.
 Definition cfg_repo (d : Z) : config := cfg_repo_eps d 0.
 
-Record ev := Ev { etime : Z; ekind : Z; ea : Z; eb : Z }.   (* kind: 0 start(tid, pid) 1 unlock(tid) 2 kill(pid) 3 cancel(tid) 4 stop(pid) 5 cont(pid) *)
+Record ev := Ev { etime : Z; ekind : Z; ea : Z; eb : Z }.   (* kind: 0 start(tid, pid) 1 unlock(tid) 2 kill(pid) 3 cancel(tid) 4 stop(pid) 5 cont(pid) 6 crash in the creation gap (tid, 2*pid + garbage) *)
 Record ob := Ob { otid : Z; oout : Z; otime : Z }.          (* out: 0 acquired 1 ctx error 2 decode error 3 other -1 never returned *)
 
 Record case := Case {
@@ -62,6 +62,7 @@ Definition sevent_of (e : ev) : sevent :=
   else if ekind e =? 2 then EKill a
   else if ekind e =? 4 then EStop a
   else if ekind e =? 5 then ECont a
+  else if ekind e =? 6 then ECrashCreate a (Z.to_nat (eb e / 2)) (Z.odd (eb e))
   else ECancel a.
 
 (** a scenario that suspends a process (SIGSTOP ... SIGCONT) violates H-live on purpose: it is
@@ -219,6 +220,15 @@ Definition prefile_recovers_ok (c : case) : bool :=
   | Some tf => recovered_by c (tf - 1) (tf + pre_bound)
   end.
 
+(** a process that died between its O_EXCL create and the end of its metadata write leaves a lock
+    file (empty, or undecodable) that nobody maintains: it is obtainable once its modification
+    time - the instant of the crash - is older than the staleness span, whoever else is alive
+    (a former holder's lingering heartbeat must not adopt it) *)
+Definition crash_create_recovers_ok (c : case) : bool :=
+  forallb (fun e => if ekind e =? 6 then
+                      let tf := etime e + stale_span in recovered_by c (tf - 1) (tf + pre_bound)
+                    else true) (cevents c).
+
 Definition cancel_ok (c : case) : bool :=
   forallb (fun e =>
     if ekind e =? 3 then
@@ -255,14 +265,15 @@ Definition free_ok (c : case) : bool :=
   match cinit c with
   | Some _ => true
   | None =>
-      existsb (fun e => (ekind e =? 2) || (ekind e =? 4)) (cevents c) ||
+      existsb (fun e => (ekind e =? 2) || (ekind e =? 4) || (ekind e =? 6)) (cevents c) ||
       forallb (fun o => match first_time (cevents c) 0 (otid o) with
                         | Some st => negb (free_for c o st) || ((oout o =? 0) && (otime o - st <=? free_prompt))
                         | None => true
                         end) (cobs c)
   end.
 
-Definition spec_ok (c : case) : bool := mutex_ok c && recovers_ok c && prefile_recovers_ok c && cancel_ok c && free_ok c.
+Definition spec_ok (c : case) : bool :=
+  mutex_ok c && recovers_ok c && prefile_recovers_ok c && crash_create_recovers_ok c && cancel_ok c && free_ok c.
 
 (** ** "distinct names never block each other": cases of kind 1
 
@@ -394,7 +405,8 @@ Definition explain_line (l : list Z) : list Z :=
       | Some c =>
           flat_map (fun x => [Z.of_nat (fst (fst x)); snd (fst x); snd x / 1000000]) (model_outlog c 0) ++
           [-7; (if mutex_ok c then 1 else 0); (if recovers_ok c then 1 else 0); (if cancel_ok c then 1 else 0);
-           (if free_ok c then 1 else 0); (if prefile_recovers_ok c then 1 else 0)]
+           (if free_ok c then 1 else 0); (if prefile_recovers_ok c then 1 else 0);
+           (if crash_create_recovers_ok c then 1 else 0)]
       | None => []
       end
   | 2 :: r =>
